@@ -18,7 +18,8 @@ LEVEL_NOTE = ("ASSUMED: Executor.map(f, xs) yields f(x) in input order on pickle
               "refine_droplet / locate_droplets are deterministic functions of their argument values (A-DET) whose side effects on shared "
               "arguments do not influence later items (sampled only); display_progress is the identity on the iterable; A-FP irrelevant "
               "(no arithmetic in the verified functions)")
-CONTRACTS = [c.ident for c in (pl.RefineDropletsBranches(), pl.FromStorageBranches())]
+from contracts import droplets as _dr
+CONTRACTS = [c.ident for c in (pl.RefineDropletsBranches(), pl.FromStorageBranches(), _dr.SetState())]
 LEMMAS = []
 CLAUSES = {"same droplets, same order, serial vs any worker count (branch equivalence)": "proved modulo Executor.map contract + determinism",
            "regardless of worker completion order": "assumed (Executor.map contract); sampled with injected delays (bounded)",
